@@ -114,7 +114,19 @@ SCENARIOS = [
     dict(prop="C01", name="D79 git patch that empties a file without deleting it", tree={b"f": b"x\n"}, argv=[b"-p1", b"-i", b"p.diff"],
          patch=b"diff --git a/f b/f\nindex 587be6b..e69de29 100644\n--- a/f\n+++ b/f\n@@ -1 +0,0 @@\n-x\n",
          expect=lambda r: _exp(r.exit == 0 and files(r).get(b"f") == b"", f"the emptied file must stay (0 bytes): {'gone' if b'f' not in files(r) else files(r)[b'f']!r}")),
+    dict(prop="C03", name="D82 context-free removal whose lines have moved (-t)", tree={b"f": b"a\nb\nc\nx\nd\ne\nf\n"}, argv=[b"-t", b"-i", b"p.diff"],
+         patch=b"--- f\n+++ f\n@@ -4,2 +3,0 @@\n-d\n-e\n",
+         expect=lambda r: _exp(r.exit == 0 and files(r).get(b"f") == b"a\nb\nc\nx\nf\n", f"a hunk found one line further down was not applied there (exit {r.exit}, f = {files(r).get(b'f')!r})")),
+    dict(prop="C03", name="D82 context-free removal whose lines have moved (no terminal)", tree={b"f": b"a\nb\nc\nx\nd\ne\nf\n"}, argv=[b"-i", b"p.diff"],
+         patch=b"--- f\n+++ f\n@@ -4,2 +3,0 @@\n-d\n-e\n",
+         expect=lambda r: _exp(r.exit == 0 and files(r).get(b"f") == b"a\nb\nc\nx\nf\n", f"a question was asked about a hunk that can be placed (exit {r.exit})")),
+    dict(prop="C09", name="D81 damaged new half of a context hunk with changed lines", tree={b"f": b"c\na\nb\nb\nb\na\n"}, argv=[b"-f", b"-i", b"p.diff"],
+         patch=b"*** f\n--- f\n***************\n*** 2,5 ****\n  a\n! b\n! b\n  b\n--- 2,4 ----\nX a\n! }\n  b\n",
+         expect=lambda r: _exp(r.exit == 2 and files(r).get(b"f") == b"c\na\nb\nb\nb\na\n", f"the damaged hunk was applied as a removal of its changed lines (exit {r.exit}, f = {files(r).get(b'f')!r})")),
     # ---- recorded as known findings ---------------------------------------------------------------------------------------------------
+    dict(prop="C04", name="D83 later section that ends right after its range line", tag="truncated.section-after-range-line", tree={b"f": L5, b"g": L5}, argv=[b"-i", b"p.diff"],
+         patch=u(b"f", [b"l3"], [b"L3"], 3) + b"--- g\n+++ g\n@@ -1,2 +1,2 @@\n",
+         expect=lambda r: _exp(r.exit != 0, "exit 0 and no message although the second section is cut off after its range line")),
     dict(prop="C01", name="D69 plain diff that empties a file", tag="operation.emptied-file-removed", tree={b"f": b"a\nb\n"}, argv=[b"-i", b"p.diff"],
          patch=b"--- f\t2024-05-01 10:00:00.000000000 +0000\n+++ f\t2024-05-01 10:00:05.000000000 +0000\n@@ -1,2 +0,0 @@\n-a\n-b\n",
          expect=lambda r: _exp(r.exit == 0 and files(r).get(b"f") == b"", "tree B has the file with 0 bytes, the run removed it")),
